@@ -145,6 +145,8 @@ pub fn arb_atom_name(heavy: bool) -> BoxedStrategy<String> {
         2 => vec(prop_oneof![Just('é'), Just('ß'), Just('λ'), Just('Ж'), Just('中'), Just('日'), Just('🎉'), Just('a'), Just('_')], 1..10)
             .prop_map(|v| v.into_iter().collect::<String>()),
         1 => Just(String::new()),
+        // 20..80 bytes of characters of mixed width: byte offsets such as 32 or 64 fall inside a character
+        2 => vec(prop_oneof![Just('a'), Just('é'), Just('ж'), Just('中'), Just('🎉'), Just('z')], 12..40).prop_map(|v| v.into_iter().collect::<String>()),
     ];
     if !heavy {
         return light.boxed();
@@ -326,6 +328,26 @@ pub fn arb_value(cfg: GenCfg) -> BoxedStrategy<Value> {
                 })
                 .boxed(),
         ));
+        if cfg.funs && cfg.ids {
+            // the same with keys that are identifiers or funs: the neighbour differs in one field of the identifier, of the
+            // fun, or of the fun's creator pid
+            let id_or_fun = prop_oneof![
+                1 => arb_pid(),
+                1 => arb_port(),
+                1 => arb_ref(false),
+                3 => (any::<u8>(), any::<[u8; 16]>(), arb_u32_edge(), arb_atom_name(false), arb_u32_edge(), arb_u32_edge(), arb_pid(), vec(arb_leaf(GenCfg { heavy: false, ..cfg }), 0..2))
+                    .prop_map(|(arity, uniq, index, module, old_index, old_uniq, pid, free)| Value::Fun { arity, uniq, index, module, old_index, old_uniq, pid: Box::new(pid), free }),
+            ];
+            alts.push((
+                1,
+                (id_or_fun, vec(any::<u8>(), 0..6), inner.clone(), inner.clone())
+                    .prop_map(move |(k, tw, a, b)| {
+                        let k2 = sanitize(&tweak(&k, &mut refmodel::etf::VecPicker::new(&tw)), 0);
+                        Value::Map(dedupe_map(vec![(k, a), (k2, b)], cfg.eq_num_keys))
+                    })
+                    .boxed(),
+            ));
+        }
         if cfg.eq_num_keys {
             alts.push((
                 2,
@@ -654,7 +676,9 @@ pub fn tweak(v: &Value, pk: &mut dyn refmodel::etf::Picker) -> Value {
         },
         Value::Fun { arity, uniq, index, module, old_index, old_uniq, pid, free } => {
             let mut f = (*arity, *uniq, *index, module.clone(), *old_index, *old_uniq, pid.clone(), free.clone());
-            match pk.pick(6, "tw-fun") {
+            match pk.pick(7, "tw-fun") {
+                // the fun's creator pid with one field changed (e.g. the same fun before and after a node restart)
+                6 => f.6 = Box::new(tweak(&f.6, pk)),
                 0 => f.0 = f.0.wrapping_add(1),
                 1 => f.1[15] ^= 1,
                 2 => f.2 = f.2.wrapping_add(1),
